@@ -1,6 +1,6 @@
 (* C06 - A join visits exactly the intersection, once each, in index order. *)
 From SV Require Import Base.ListX Store.Masked World.Env World.Join World.JoinProps World.JoinAbs World.JoinRefine
-  World.JoinAbsProps World.EnvSim World.Simulation.
+  World.JoinAbsProps World.EnvSim World.JoinNoStuck World.Simulation.
 From Coq Require Import Sorting.Sorted.
 
 (* the keys of a join are strictly ascending: index order, each index once *)
@@ -139,6 +139,19 @@ Theorem C06_drain_removes_the_visited_only : forall unit av hs excl eids pre pos
     if in_dec N.eq_dec j keys then None else cell S s j.
 Proof. exact join_drain_removes_the_visited_cells_only. Qed.
 
+(* a join never accesses a slot that is not there: with registered members, every storage fetched mutably at most
+   once per tuple (join_ok) and the keys taken from the masks, no storage access of the join is ever stuck (no
+   unchecked get on an absent index, no "tried to access same index twice"), and the storages stay well formed *)
+Theorem C06_joins_are_never_stuck : forall e av eids hs k ms, EInv e -> cx_stuck (se_cx e) = false ->
+  forallb (m_registered e) ms = true ->
+  cx_stuck (se_cx (fst (env_join e av eids hs k ms))) = false /\ EInv (fst (env_join e av eids hs k ms)).
+Proof. exact env_join_never_stuck. Qed.
+
+(* ... and no membership is ever added by a join (drains remove, nothing else changes a mask) *)
+Theorem C06_joins_add_no_member : forall e av eids hs k ms sid i,
+  NS.mem i (env_mask (fst (env_join e av eids hs k ms)) sid) = true -> NS.mem i (env_mask e sid) = true.
+Proof. intros e av eids hs k ms sid i. apply env_join_masks_shrink. Qed.
+
 (* non-vacuity: a sparse two-storage world joined with a negation and an optional member *)
 Example C06_nonvacuous :
   let e0 := env_register (env_register (env_init false) 0) 3 in
@@ -171,3 +184,5 @@ Print Assumptions C06_mutation_lands_on_the_visited_entities_only.
 Print Assumptions C06_other_storages_untouched.
 Print Assumptions C06_cells_after_a_join.
 Print Assumptions C06_drain_removes_the_visited_only.
+Print Assumptions C06_joins_are_never_stuck.
+Print Assumptions C06_joins_add_no_member.
